@@ -269,6 +269,60 @@ theorem run_spec {cfg : Cfg} (hraw : cfg.flushRaw = false) (ht : Total cfg) (h :
         · simpa [run, Proxy.step, hstep] using hs2
         · simpa [run, Proxy.step, hstep] using hne2
 
+/-! ## Two proxies on one console -/
+
+/-- the calls made on stream `b`, in order -/
+def proj (b : Bool) (h : List (Bool × Op)) : List Op := h.filterMap fun x => if x.1 = b then some x.2 else none
+
+/-- what the console was asked by stream `b`, in order -/
+def eventsOf (b : Bool) (evs : List (Bool × Event)) : List Event :=
+  evs.filterMap fun x => if x.1 = b then some x.2 else none
+
+theorem eventsOf_append (b : Bool) (x y : List (Bool × Event)) : eventsOf b (x ++ y) = eventsOf b x ++ eventsOf b y := by
+  simp [eventsOf, List.filterMap_append]
+
+theorem eventsOf_map_same (b : Bool) (l : List Event) : eventsOf b (l.map fun e => (b, e)) = l := by
+  induction l with
+  | nil => rfl
+  | cons e r ih => simp [eventsOf] at ih ⊢; exact ih
+
+theorem eventsOf_map_other {b c : Bool} (h : c ≠ b) (l : List Event) : eventsOf b (l.map fun e => (c, e)) = [] := by
+  induction l with
+  | nil => rfl
+  | cons e r ih => simp [eventsOf, h] at ih ⊢
+
+theorem get_set_same (ps : Proxies) (b : Bool) (p : Proxy) : (ps.set b p).get b = p := by
+  cases b <;> simp [Proxies.get, Proxies.set]
+
+theorem get_set_other (ps : Proxies) {b c : Bool} (h : c ≠ b) (p : Proxy) : (ps.set c p).get b = ps.get b := by
+  cases b <;> cases c <;> simp_all [Proxies.get, Proxies.set]
+
+/-- The two streams do not interfere: what stream `b` asks of the console during an interleaved history, and the
+state its proxy ends in, are what a proxy alone would do on the calls made on stream `b`. -/
+theorem run2_proj (cfg : Cfg) (b : Bool) (h : List (Bool × Op)) (ps : Proxies) :
+    eventsOf b (run2 cfg ps h).2 = (run cfg (ps.get b) (proj b h)).2 ∧
+    (run2 cfg ps h).1.get b = (run cfg (ps.get b) (proj b h)).1 := by
+  induction h generalizing ps with
+  | nil => exact ⟨rfl, rfl⟩
+  | cons x r ih =>
+    obtain ⟨c, op⟩ := x
+    by_cases hc : c = b
+    · subst hc
+      obtain ⟨h1, h2⟩ := ih (ps.set c ((ps.get c).step cfg op).1)
+      rw [get_set_same] at h1 h2
+      constructor
+      · simp only [run2, proj, List.filterMap_cons, if_true, run, eventsOf_append, eventsOf_map_same]
+        rw [h1]; rfl
+      · simp only [run2, proj, List.filterMap_cons, if_true, run]
+        rw [h2]; rfl
+    · obtain ⟨h1, h2⟩ := ih (ps.set c ((ps.get c).step cfg op).1)
+      rw [get_set_other ps hc] at h1 h2
+      constructor
+      · simp only [run2, proj, List.filterMap_cons, hc, if_false, eventsOf_append, eventsOf_map_other hc, List.nil_append]
+        exact h1
+      · simp only [run2, proj, List.filterMap_cons, hc, if_false]
+        exact h2
+
 /-! ## The specification when nothing is flushed: the complete lines of the concatenated text -/
 
 /-- The complete (newline-terminated) lines of a text, and the unterminated rest. -/
